@@ -207,6 +207,18 @@ ROUND9 = {
 }
 
 
+ROUND10 = {
+    'C06': 'Process classes with a WAITING state class of their own.',
+    'C07': 'A listener put on the loaded process; a checkpoint between future().cancel() and the kill; explicitly empty inputs.',
+    'C11': 'Ports re-filed under another key of their namespace.',
+    'C12': 'Re-filed output ports; a namespace class of its own whose dynamic rule refuses None, also for namespaces created on the fly.',
+    'C16': 'The coroutine controller returns the answer, not a future (bare communicator).',
+    'C17': 'Failing task-body helpers; the helper default for nowait; launches through RemoteProcessController.launch_process.',
+    'C19': 'User metadata written by classes (set_custom_meta); direct recreate_from with a loop-only context.',
+    'C20': 'task_send(no_reply=True) through the loop wrapper.',
+}
+
+
 def main():
     checks = []
     for pid, (level, technique, text, note, ref) in sorted(CHECKS.items()):
@@ -216,6 +228,8 @@ def main():
             text = text.rstrip() + ' Added after round 8: ' + ROUND8[pid]
         if pid in ROUND9:
             text = text.rstrip() + ' Added after round 9: ' + ROUND9[pid]
+        if pid in ROUND10:
+            text = text.rstrip() + ' Added after round 10: ' + ROUND10[pid]
         checks.append(
             {
                 'property_id': pid,
